@@ -349,9 +349,20 @@ type TMapKeys struct {
 	F  map[[4]byte]string `parquet:"f"`
 	I8 map[int8]int64     `parquet:"i8"`
 	S  map[string]bool    `parquet:"s"`
+	OV map[string]string  `parquet:"ov" parquet-value:",optional"`
+	OI map[string]int64   `parquet:"oi" parquet-value:",optional"`
 }
 
 func init() { reg[TMapKeys]("mapkeys") }
+
+// Tags that change the stored representation of a Go type: a string holding the text form of a UUID.
+type TTagConv struct {
+	ID int64  `parquet:"id"`
+	U  string `parquet:"u,uuid"`
+	OU string `parquet:"ou,uuid,optional"`
+}
+
+func init() { reg[TTagConv]("tagconv") }
 
 func typeByName(n string) *typeEntry {
 	for _, t := range catalogue {
